@@ -191,3 +191,93 @@ Proof.
       rewrite mk_range_some; [reflexivity| |exact Hlt]. unfold u64 in Hu. lia.
     + unfold contains. cbn [fst snd]. apply andb_true_intro. split; apply Z.leb_le; lia.
 Qed.
+
+(* ---- symbol-file records (FUNC, STACK CFI INIT): a record goes to the vector only if memory_range() exists
+   (finish_item), then the parser-local builder; the value is the whole record ---- *)
+Section Records.
+Context {V : Type} (eqb : V -> V -> bool).
+Hypothesis eqb_eq : forall a b, eqb a b = true <-> a = b.
+
+Fixpoint keep_ranged (l : list (option range * V)) : list (range * V) :=
+  match l with
+  | [] => []
+  | (Some r, v) :: t => (r, v) :: keep_ranged t
+  | (None, _) :: t => keep_ranged t
+  end.
+
+Definition g_record_table (mr : Z -> Z -> outcome (option range)) (recs : list (Z * Z * V)) : outcome (list (range * V)) :=
+  do l <- omap (fun e => let '(b, s, v) := e in do r <- mr b s; Ret (r, v)) recs;
+  g_build_parser eqb (keep_ranged l).
+
+Definition u64_recs (recs : list (Z * Z * V)) : Prop := Forall (fun e => u64 (fst (fst e)) /\ u64 (snd (fst e))) recs.
+
+Lemma keep_ranged_in l r v : In (r, v) (keep_ranged l) <-> In (Some r, v) l.
+Proof.
+  induction l as [|[[r'|] v'] t IH]; cbn [keep_ranged In]; [tauto| |].
+  - rewrite IH. split; (intros [H|H]; [left; inversion H; reflexivity|right; exact H]).
+  - rewrite IH. split; [auto|]. intros [H|H]; [discriminate|exact H].
+Qed.
+
+Lemma keep_ranged_app a b : keep_ranged (a ++ b) = keep_ranged a ++ keep_ranged b.
+Proof.
+  induction a as [|[[r|] v] t IH]; cbn [keep_ranged app]; [reflexivity| |assumption]. rewrite IH. reflexivity.
+Qed.
+
+Lemma record_table_ok (mr : Z -> Z -> outcome (option range)) recs :
+  (forall b s, u64 b -> u64 s -> mr b s = Ret (mk_range b s)) -> u64_recs recs ->
+  exists t, g_record_table mr recs = Ret t /\
+    StronglySorted (fun a b => snd (fst a) < fst (fst b)) t /\
+    (forall x v, rm_get t x = Some v ->
+       exists b s, In (b, s, v) recs /\ s <> 0 /\ b + s < two64 /\ b <= x < b + s) /\
+    (forall r1 b s v r2 x, recs = r1 ++ (b, s, v) :: r2 -> s <> 0 -> b + s < two64 -> b <= x < b + s ->
+       (forall b' s' v', In (b', s', v') (r1 ++ r2) -> s' = 0 \/ two64 <= b' + s' \/ b' + s' <= b \/ b + s <= b') ->
+       rm_get t x = Some v).
+Proof.
+  intros Hmr H.
+  set (pure := fun e : Z * Z * V => let '(b, s, v) := e in (mk_range b s, v)).
+  set (l := keep_ranged (map pure recs)).
+  assert (Hl : omap (fun e => let '(b, s, v) := e in do r <- mr b s; Ret (r, v)) recs = Ret (map pure recs)).
+  { apply (omap_pure _ pure (fun e => u64 (fst (fst e)) /\ u64 (snd (fst e)))); [|exact H].
+    intros [[b s] v] [Hb Hs]. cbn [fst snd] in *. rewrite Hmr by assumption. reflexivity. }
+  assert (Hwf : wf_ranges l).
+  { unfold wf_ranges. apply Forall_forall. intros [r v] Hin. cbn [fst]. apply keep_ranged_in in Hin.
+    apply in_map_iff in Hin. destruct Hin as [[[b s] v'] [E Hin]]. cbn in E. inversion E; subst.
+    unfold u64_recs in H. rewrite Forall_forall in H. destruct (H _ Hin) as [Hb Hs]. cbn [fst snd] in *.
+    exact (mk_range_wf64 b s r Hb Hs H1). }
+  exists (into_rangemap_safe_p eqb l).
+  split; [unfold g_record_table; rewrite Hl; cbn [obind]; apply g_build_parser_total; exact Hwf|].
+  split; [apply (sorted_disjoint_p eqb l Hwf)|]. split.
+  - intros x v Hg. destruct (lookup_sound_p eqb eqb_eq l x v Hwf Hg) as [r [Hin Hc]].
+    apply keep_ranged_in in Hin. apply in_map_iff in Hin. destruct Hin as [[[b s] v'] [E Hin]]. cbn in E. inversion E; subst.
+    exists b, s. split; [exact Hin|]. eapply mk_range_contains; eassumption.
+  - intros r1 b s v r2 x He Hs Hlt Hx Hiso.
+    assert (Hu : u64 b /\ u64 s).
+    { unfold u64_recs in H. rewrite He in H. apply Forall_app in H. destruct H as [_ H]. inversion H; subst. assumption. }
+    assert (Hr : mk_range b s = Some (b, b + s - 1)) by (apply mk_range_some; unfold u64 in Hu; lia).
+    assert (El : l = keep_ranged (map pure r1) ++ ((b, b + s - 1), v) :: keep_ranged (map pure r2)).
+    { unfold l. rewrite He. rewrite map_app. rewrite keep_ranged_app. cbn [map keep_ranged pure]. rewrite Hr. reflexivity. }
+    revert Hwf. rewrite El. intros Hwf.
+    apply (isolated_complete_p eqb eqb_eq); [exact Hwf| |unfold contains; cbn [fst snd]; apply andb_true_intro; split; apply Z.leb_le; lia].
+    intros r' v' Hin. rewrite <- keep_ranged_app, <- map_app in Hin. apply keep_ranged_in in Hin.
+    apply in_map_iff in Hin. destruct Hin as [[[b' s'] v''] [E Hin]]. cbn in E. inversion E as [[Hr' Hv']].
+    apply mk_range_shape in Hr'. destruct Hr' as [Hr' [Hs' Hlt']]. subst r'.
+    specialize (Hiso b' s' v'' Hin). unfold intersects. cbn [fst snd]. apply andb_false_iff.
+    destruct Hiso as [Hi|[Hi|[Hi|Hi]]]; [exfalso; lia|exfalso; lia|left; apply Z.leb_gt; lia|right; apply Z.leb_gt; lia].
+Qed.
+End Records.
+
+Lemma records_end_to_end (V : Type) (eqb : V -> V -> bool) (mr : profile -> Z -> Z -> outcome (option range)) :
+  (forall a b, eqb a b = true <-> a = b) ->
+  In mr [g_mr_Function; g_mr_StackInfoCfi] ->
+  forall p (recs : list (Z * Z * V)), u64_recs recs ->
+  exists t, g_record_table eqb (mr p) recs = Ret t /\
+    StronglySorted (fun a b => snd (fst a) < fst (fst b)) t /\
+    (forall x v, rm_get t x = Some v ->
+       exists b s, In (b, s, v) recs /\ s <> 0 /\ b + s < two64 /\ b <= x < b + s) /\
+    (forall r1 b s v r2 x, recs = r1 ++ (b, s, v) :: r2 -> s <> 0 -> b + s < two64 -> b <= x < b + s ->
+       (forall b' s' v', In (b', s', v') (r1 ++ r2) -> s' = 0 \/ two64 <= b' + s' \/ b' + s' <= b \/ b + s <= b') ->
+       rm_get t x = Some v).
+Proof.
+  intros Heq [<-|[<-|[]]] p recs H; apply (record_table_ok eqb Heq); try exact H; intros;
+    [apply g_mr_Function_eq|apply g_mr_StackInfoCfi_eq]; assumption.
+Qed.
